@@ -931,6 +931,10 @@ class Scheduler:
                 # sched_op is not part of the sub-schedule - skip
                 continue
 
+            if is_nearest(sched_op.resampling_mode) and stripe.height % 2:
+                # is nearest requires even stripes
+                stripe = stripe.with_height(stripe.height + 1)
+
             # Create a cost entry with the new stripe
             cost = sched_op.create_scheduler_info(self.nng, stripe)
 
